@@ -58,6 +58,11 @@ def _worker(ob, conn):
         for r in res:
             r.setdefault("name", ob.name)
         st = dict(sym.STATS)
+        if st.get("unknown") and res and all(r["status"] == DISCHARGED for r in res):
+            # a deciding query came back `unknown` and the obligation went on as if it had been `unsat`
+            res[-1]["status"] = INCONCLUSIVE
+            res[-1]["detail"] = "%d solver quer%s inside this obligation answered unknown; claimed: %s" % (
+                st["unknown"], "y" if st["unknown"] == 1 else "ies", res[-1].get("detail", ""))
     except sym.Unsupported as e:
         res = [inconclusive("Unsupported: %s" % e, name=ob.name, tb=traceback.format_exc()[-1500:])]
         st = dict(sym.STATS)
